@@ -104,7 +104,10 @@ class DataflowRules:
                 n = n.split(".")[-1]
                 a0 = args[0] if args else TOP
                 txt = f"{n}({norm(node.args[0]) if node.args else ''})"
-                if n in ("sin", "cos", "tan"):
+                if a0.unit == "deg|rad" and n in ("sin", "cos", "tan", "deg2rad", "radians", "rad2deg", "degrees"):
+                    self.add("UNIT/double-conversion" if n not in ("sin", "cos", "tan") else "UNIT/deg->trig", False, fr, node, txt,
+                             f"the argument of np.{n} is in degrees on one path and in radians on another (two definitions with different units reach {norm(node)[:60]}): one of them is converted wrongly", arg=a0.brief())
+                elif n in ("sin", "cos", "tan"):
                     if a0.unit == "deg":
                         self.add("UNIT/deg->trig", False, fr, node, txt, f"degrees reach np.{n}: {norm(node)}", arg=a0.brief())
                     elif a0.unit == "rad":
@@ -217,10 +220,11 @@ class DataflowRules:
         is_container = base.kind in ("ds", "da", "dict", "dictmethod") or container
         # in-place arithmetic on the buffer of a variable stored in Grid._ds (reached through .values/.data of a grid property):
         # a read-only derivation then changes what the grid reports for the variable it read
-        if how.startswith("augmented") and base.kind in ("nd", None) and any(o[0] == "grid_ds" for o in org) and base.vars:
+        bvars = base.vars or (frozenset({base.var}) if base.var else None)
+        if (how.startswith("augmented") or how.startswith("item")) and base.kind in ("nd", None) and any(o[0] == "grid_ds" for o in org) and bvars:
             self.add("GRIDBUF/write", False, fr, node, txt,
-                     f"{how} modifies in place the stored grid variable(s) {sorted(base.vars)} (the array is the buffer of Grid._ds, not a copy): deriving one quantity changes another",
-                     vars=sorted(base.vars))
+                     f"{how} modifies in place the stored grid variable(s) {sorted(bvars)} (the array is the buffer of Grid._ds, not a copy): deriving one quantity changes another",
+                     vars=sorted(bvars))
         for o in org:
             if o[0] == "param" or (o[0] == "parambuf" and not is_container):
                 self.add("ALIAS/param-write", False, fr, node, txt, f"{how} writes into an object owned by the caller (parameter '{o[1]}' of {self.entry.qualname if self.entry else '?'})",
